@@ -666,3 +666,57 @@ func churnScenario(r *rand.Rand) []HOp {
 	ops = append(ops, HOp{Kind: "remove", PID: 0x41}, mk(0x40), HOp{Kind: "add", PID: 0x41, ES: &astits.PMTElementaryStream{StreamType: astits.StreamTypeAACAudio}, Slot: -1}, mk(0x41), mk(0x41), HOp{Kind: "tables"})
 	return ops
 }
+
+// remuxScenario is what a remultiplexer does: a stream (a generated one with adaptation fields on any packet, or one the Muxer
+// wrote in a random history) is demultiplexed and every PES that comes out is handed to a new Muxer as it is — the parsed PESData
+// with its by-product fields (PES_packet_length, header length) and the first packet's parsed adaptation field (length, stuffing
+// length and one-byte-stuffing flag included). The second return value is the number of units handed over.
+func remuxScenario(r *rand.Rand, fromMuxer bool) ([]HOp, int) {
+	var src []byte
+	types := map[uint16]astits.StreamType{}
+	if fromMuxer {
+		ops, period := RandomHistory(r, HistOpts{MaxOps: 40, AutoPIDs: true, BigAF: true, RichHeaders: true, LongPayloads: r.IntN(4) == 0})
+		hr := runHistory(ops, period)
+		src = hr.Out
+		for _, cl := range hr.Calls {
+			for _, s := range cl.Streams {
+				if s.Known {
+					types[s.PID] = s.ES.StreamType
+				}
+			}
+		}
+	} else {
+		m := gen.RandomModel(r, gen.ModelOpts{MaxPES: 3, MaxPMT: 1, MaxSI: 1, MaxUnits: 14, MaxPESLen: 2500, RichAF: true, NoPtrOnlyFirstChunk: true})
+		src = m.Build(r).Bytes
+	}
+	run := RunDemux(src, baseCfg("data"))
+	var pids []uint16
+	var data []HOp
+	for _, d := range run.Datas() {
+		if d.PES == nil || d.FirstPacket == nil || d.PID < 0x20 || d.PID == 0x1000 || d.PID == 0x1fff || len(d.PES.Data) == 0 {
+			continue
+		}
+		if _, ok := types[d.PID]; !ok {
+			types[d.PID] = astits.StreamTypeAACAudio
+			if d.PES.Header.IsVideoStream() {
+				types[d.PID] = astits.StreamTypeH264Video
+			}
+		}
+		known := false
+		for _, p := range pids {
+			known = known || p == d.PID
+		}
+		if !known {
+			pids = append(pids, d.PID)
+		}
+		data = append(data, HOp{Kind: "data", PID: d.PID, Data: &astits.MuxerData{PID: d.PID, AdaptationField: d.FirstPacket.AdaptationField, PES: d.PES}})
+	}
+	var ops []HOp
+	for _, p := range pids {
+		ops = append(ops, HOp{Kind: "add", PID: p, ES: &astits.PMTElementaryStream{StreamType: types[p]}, Slot: -1})
+	}
+	if len(pids) > 0 {
+		ops = append(ops, HOp{Kind: "pcr", PID: pids[0]})
+	}
+	return append(ops, data...), len(data)
+}
